@@ -72,7 +72,7 @@ form before any rule reads it (`sa/model.py`):
 A third tool, `tools/global_probe.py`, applies one rewrite to every function of every module at once (up to 240 files) and runs all thirty checks on that overlay.  `baselines/skips.json` is read from the unchanged tree under the same canonical form.  What is *not* canonicalised: the
 inversion of an `if`/`else` whose branches both leave and neither (or both) report an error, and the inversion of a guard
 clause together with the rest of its block; renaming a function the rules are anchored in ends the run as analysis-broken
-(exit 2), not as a violation.  Last runs (2026-09-22, on /repo HEAD bb1b1454): rename probe 66/66 functions silent; refactor probe silent in all seven modes (identity, invert, swapeq, deelse, addelse, noise, extract) on all 66 functions after the corrections listed here (the last corrections: asserts are no-ops for the C04 interpreter, C12 and ERR4 follow a returned local to its assignment, C18 REP counts uses per definition).
+(exit 2), not as a violation.  Last runs (2026-09-22, on /repo HEAD bb1b1454): global probe 209 of 210 (mode, property) pairs silent - the one report is C18 SKIPS on the inversion of the `if`/`else` in revm `transform_term` whose branches both return, the case named above as not canonicalised; rename probe 66/66 functions silent; refactor probe silent in all seven modes (identity, invert, swapeq, deelse, addelse, noise, extract) on all 66 functions after the corrections listed here (the last corrections: asserts are no-ops for the C04 interpreter, C12 and ERR4 follow a returned local to its assignment, C18 REP counts uses per definition).
 """
 
 OBSERVED = """
